@@ -1,3 +1,4 @@
+import VProps.TransJson
 import VProps.C18
 import VProps.C02
 import VProps.C06
@@ -33,3 +34,5 @@ import VProps.C17
 #print axioms V.C18.no_panic_event_references
 #print axioms V.C18.no_panic_event_references_ids
 #print axioms V.C18.event_references_witnesses
+#print axioms V.Trans.Json.isNegativeZeroLiteral_eq_model
+#print axioms V.Trans.Json.readHexDigits_total
